@@ -20,6 +20,7 @@ class WriteLog:
         self.len_changes = set()  # cids whose length was changed (append/insert/pop)
         self.var_reads_before_write = set()
         self.heap_reads_before_write = set()
+        self.write_texts = []     # source text of the written targets (labels loops for the invariant pool)
 
 
 def _subst(val, v, k):
@@ -74,16 +75,26 @@ def symbolic_for(ex, node, it, st: State):
     v = z3.Int(fresh_name("it"))
     dry = st.fork()
     dry.log = WriteLog()
+    dry.log.depth = len(st.frames)
     dry.next_cell = [st.next_cell[0] + 100000]      # private cell ids for the dry run
     rng = z3.And(lo_t <= v, v < hi_t)
     dry.pc.append(rng)
     nobl = len(ctx.obligations)
     names_seen_before = dict(ctx.names_seen)
+    ctx.no_let = getattr(ctx, "no_let", 0) + 1       # v is substituted by the summary: no let-names over it
+    try:
+        return _symbolic_for_inner(ex, node, it, st, ctx, lo, hi, elem, lo_t, hi_t, v, dry, rng, nobl, names_seen_before)
+    finally:
+        ctx.no_let -= 1
+
+
+def _symbolic_for_inner(ex, node, it, st, ctx, lo, hi, elem, lo_t, hi_t, v, dry, rng, nobl, names_seen_before):
     ex.assign_target(node.target, elem(v) if elem else v, dry)
     tvars = set(dry.log.var_writes)
     dry.log.var_writes = set()
     dry.log.var_reads_before_write = set()
     dry.log.heap_reads_before_write = set()
+    dry.log.write_texts = []
     prefix_len = len(dry.pc)
     outs = ex.exec_block(node.body, dry)
     outs = ex.merge_outcomes(outs, prefix_len)
@@ -134,6 +145,58 @@ def symbolic_for(ex, node, it, st: State):
             if isinstance(newv, (CellRef, Seq)):
                 summary_ok, reason = False, "heap sequence re-bound in loop body"
                 break
+    if summary_ok:
+        # a scalar written only on some paths of the body carries its previous value implicitly: re-run the body with
+        # the old values of all written scalars replaced by marker symbols; a marker surviving into the end value
+        # means the location is loop-carried
+        markers = {}
+        probe = st.fork()
+        probe.log = None
+        probe.next_cell = [st.next_cell[0] + 200000]
+        for name in sorted(log.var_writes):
+            if name in probe.frames[-1]:
+                ov = probe.frames[-1][name]
+                mk = havoc_like(ex, probe, ov, "mk")
+                if mk is not ov:
+                    probe.frames[-1][name] = mk
+                    markers[("v", name)] = mk
+        for key in log.heap_writes:
+            ov = probe.heap.get(key)
+            if ov is None:
+                try:
+                    ov = ex.heap_initial_for_merge(probe, key)
+                except Exception:
+                    continue
+            mk = havoc_like(ex, probe, ov, "mk")
+            if mk is not ov:
+                probe.heap[key] = mk
+                markers[("h", key)] = mk
+        if markers:
+            nobl2 = len(ctx.obligations)
+            seen2 = dict(ctx.names_seen)
+            probe.pc.append(rng)
+            ex.assign_target(node.target, elem(v) if elem else v, probe)
+            pl = len(probe.pc)
+            pouts = ex.merge_outcomes(ex.exec_block(node.body, probe), pl)
+            pouts = ex.merge_outcomes([Outcome("normal", o.state) for o in pouts if o.kind in ("normal", "continue")], pl)
+            del ctx.obligations[nobl2:]
+            ctx.names_seen = seen2
+            if len(pouts) != 1:
+                summary_ok, reason = False, "body does not merge"
+            else:
+                pend = pouts[0].state
+                for (kind, k2), mk in markers.items():
+                    fin = pend.frames[-1].get(k2) if kind == "v" else pend.heap.get(k2)
+                    if is_sym(fin) and _mentions(fin, mk):
+                        summary_ok, reason = False, f"conditionally written scalar {k2} (implicitly loop-carried)"
+                        break
+                if summary_ok:
+                    # written cells must not depend on the markers either
+                    for cid in written_cids:
+                        val = pend.cells[cid].get(v)
+                        if is_sym(val) and any(_mentions(val, mk) for mk in markers.values()):
+                            summary_ok, reason = False, "array element depends on a loop-carried scalar"
+                            break
 
     if summary_ok:
         # ---------- exact summary: A := lambda k. ite(lo<=k<hi, body(k), A_old[k])
@@ -194,7 +257,29 @@ def symbolic_for(ex, node, it, st: State):
     # ---------------- invariant route: discard dry-run obligations, they are regenerated under the invariant
     del ctx.obligations[nobl:]
     ctx.names_seen = names_seen_before
-    return invariant_for(ex, node, st, lo, hi, elem, log, written_cids, tvars, reason)
+    saved_no_let = ctx.no_let
+    ctx.no_let = 0        # the invariant route never substitutes its iteration constant
+    try:
+        return invariant_for(ex, node, st, lo, hi, elem, log, written_cids, tvars, reason)
+    finally:
+        ctx.no_let = saved_no_let
+
+
+def _mentions(term, sym) -> bool:
+    seen = set()
+    stack = [term]
+    while stack:
+        x = stack.pop()
+        if x.get_id() in seen:
+            continue
+        seen.add(x.get_id())
+        if x.eq(sym):
+            return True
+        if z3.is_quantifier(x):
+            stack.append(x.body())
+            continue
+        stack.extend(x.children())
+    return False
 
 
 def _subst_seq(sq: Seq, v, k):
@@ -227,7 +312,7 @@ def havoc_cell(ex, st, cid, label, len_changes):
     if cid in len_changes:
         n = z3.Int(fresh_name(label + ".len"))
         st.assume(n >= 0)
-    st.cells[cid] = Seq(old.kind, n, fn=lambda j, f=f: f(to_int(j)), et=old.et if old.et != "any" else "real")
+    st.cells[cid] = Seq(old.kind, n, fn=lambda j, f=f: f(to_int(j)), et=old.et if old.et != "any" else "real", uf=f)
 
 
 def invariant_for(ex, node, st, lo, hi, elem, log, written_cids, tvars, reason):
@@ -236,12 +321,14 @@ def invariant_for(ex, node, st, lo, hi, elem, log, written_cids, tvars, reason):
     invs = getattr(contract, "loop_invariants", None) if contract is not None else None
     ordinal = ctx.stats.get("inv_loops_seen", 0) + 1
     ctx.stats["inv_loops_seen"] = ordinal
+    label = ",".join(sorted(set(log.write_texts)))
+    ctx.notes.append(f"invariant route for loop at line {node.lineno} (writes: {label}): {reason}")
     inv = None
     if invs:
-        inv = invs.get(ordinal) or invs.get(f"line:{node.lineno}") or invs.get(ast.unparse(node.iter))
+        inv = invs.get(label) or invs.get(ordinal)
     if inv is None:
         ex.unsupported(node, f"loop needs an inductive invariant ({reason}); none supplied for loop #{ordinal} "
-                             f"'{ast.unparse(node.iter)}'")
+                             f"writing '{label}' over '{ast.unparse(node.iter)}'")
     ctx.stats["loops_invariant"] += 1
     from .spec import eval_clauses
     pre = st.fork()
